@@ -59,6 +59,8 @@ package cutter
 //
 //@ func (*BatchCutter).Add
 //@   requires r != nil && r.pendingBatch != nil
+//   the operation is queued as it was handed in, under the protocol version it was handed in with (never re-stamped)
+//@   atcall Add arg1 == op_0 && arg2 == protocolVersion_0
 //
 //@ func (*BatchCutter).Cut
 //@   requires r != nil && r.pendingBatch != nil && r.client != nil
